@@ -7,6 +7,7 @@ import (
 	"net"
 	"sort"
 	"sync"
+	"sync/atomic"
 	"time"
 
 	"github.com/honeytrap/honeytrap/event"
@@ -41,8 +42,12 @@ type Store struct {
 var Events = func() *Store { s := &Store{}; s.cond = sync.NewCond(&s.mu); return s }()
 
 type capture struct {
-	ID  string `toml:"id"`
-	run int
+	ID string `toml:"id"`
+	// StallFirstMs: the channel takes this long over the first event it is given (a pusher whose backend hangs for a
+	// moment); the event is recorded when the stall is over
+	StallFirstMs int `toml:"stall_first_ms"`
+	stalled      int32
+	run          int
 }
 
 func newCapture(options ...func(pushers.Channel) error) (pushers.Channel, error) {
@@ -59,6 +64,9 @@ func newCapture(options ...func(pushers.Channel) error) (pushers.Channel, error)
 }
 
 func (c *capture) Send(e event.Event) {
+	if c.StallFirstMs > 0 && atomic.CompareAndSwapInt32(&c.stalled, 0, 1) {
+		time.Sleep(time.Duration(c.StallFirstMs) * time.Millisecond)
+	}
 	Events.add(c.ID, c.run, e)
 }
 
